@@ -77,20 +77,34 @@ def fam_invert(rng):
         if k < 0.6: expr = f"not a {op} b"
         elif k < 0.75: expr = f"not a {op} b {rng.choice(ops[:6])} c"
         elif k < 0.9: expr = f"not (a {op} b)"
-        else: expr = f"(not a {op} b) and True"
+        elif k < 0.95: expr = f"(not a {op} b) and True"
+        else: expr = rng.choice([f"(not a {op} b) + 1", f"-(not a {op} b)", f"[not a {op} b][0]", f"(not a {op} b) == (not b {op} a)"])
         out.append(PRELUDE + f"a = {a}\nb = {b}\nc = {rng.choice(vals[:8])}\ntry:\n    print({expr})\nexcept Exception as e:\n    print('EXC', type(e).__name__)\nif {expr}:\n    print('taken')\n")
     return out
 
 
 def fam_combine(rng, fn):
-    recv = ["'xyz'", "'abc'", "''"]
-    args = ["'x'", "'a'", "''", "('x', 'q')", "('a',)", "pfx", "tup"]
+    recv = ["'xyz'", "'abc'", "''", "'\\\\n tail'", "'\\n tail'"]
+    args = ["'x'", "'a'", "''", "('x', 'q')", "('a',)", "pfx", "tup", '"\\n"', 'r"\\n"', "'x'", '"x"']
     out = []
     for _ in range(50):
         r = rng.choice(recv)
         a1, a2, a3 = rng.choice(args), rng.choice(args), rng.choice(args)
+        pure = False
+        if rng.random() < 0.2:
+            pure = True
+            # literals with the same text between the quotes but another meaning (raw / plain, either order, inside a tuple)
+            pair = rng.choice([['"\\n"', 'r"\\n"'], ['"\\t"', 'r"\\t"'], ['"\\\\"', 'r"\\\\"']])
+            rng.shuffle(pair)
+            a1, a2 = pair
+            # the receiver matches one of the two literals only
+            lit = rng.choice(pair)
+            r = f"{lit} + ' tail'" if fn == "startswith" else f"'head ' + {lit}"
+            if rng.random() < 0.3: a2 = f"({a2}, 'zz')"
         shape = rng.choice(["{A} or {B}", "{A} or {B} or {C}", "({A} or {B}) and {F}", "{A} or {B} and {F}", "{F} and ({A} or {B})", "{A} or ({B} or {C})",
-                            "not ({A} or {B})", "{A} or {B} if {F} else {C}", "{A} or {O}", "{F} and {A} or {B}"])
+                            "not ({A} or {B})", "{A} or {B} if {F} else {C}", "{A} or {O}", "{F} and {A} or {B}", "not ({F} or {A} or {B})", "not ({A} or {B} or {F})"])
+        if pure:   # shapes outside the recorded regrouping finding, so that a difference is the literals' doing
+            shape = rng.choice(["{A} or {B}", "not ({A} or {B})", "{A} or {B} or {A}", "{A} or ({B} or {A})"])
         expr = shape.format(A=f"s.{fn}({a1})", B=f"s.{fn}({a2})", C=f"s.{fn}({a3})", F="flag", O=f"t.{fn}({a2})")
         out.append(f"s = {r}\nt = 'xq'\npfx = 'x'\ntup = ('x', 'z')\nflag = {rng.choice(['True', 'False'])}\ntry:\n    print({expr})\nexcept Exception as e:\n    print('EXC', type(e).__name__)\n")
     return out
@@ -116,7 +130,8 @@ def fam_generator(rng):
         fn = rng.choice(["any", "all", "sum", "min", "max", "sorted", "list"])
         elt = rng.choice(["x", "x > 1", "noisy(x)", "noisy(x) > 1", "x * 2"])
         src = rng.choice(["[1, 2, 3]", "range(4)", "[0, 1, 0]", "[3]"])
-        out.append(PRELUDE + f"try:\n    print({fn}([{elt} for x in {src}]))\nexcept Exception as e:\n    print('EXC', type(e).__name__)\n")
+        extra = rng.choice(["", "", ", 10" if fn == "sum" else "", ", default=0" if fn in ("min", "max") else "", ", key=lambda v: -v" if fn in ("min", "max", "sorted") else ""])
+        out.append(PRELUDE + f"try:\n    print({fn}([{elt} for x in {src}]{extra}))\nexcept Exception as e:\n    print('EXC', type(e).__name__)\n")
     return out
 
 
@@ -134,6 +149,11 @@ def fam_walrus(rng):
         v = rng.choice(["noisy(1)", "noisy(0)", "[]", "'x'", "None"])
         body = rng.choice(["print('yes', val)", "print('yes')\n    val = 5\n    print(val)"])
         tail = rng.choice(["print('after', val)", "print('end')", ""])
+        if rng.random() < 0.3:
+            a, b = rng.choice(["0", "1", "[]"]), rng.choice(["0", "2", "'x'"])
+            out.append(PRELUDE + f"def f(a, b):\n    val = a or b\n    if not val:\n        print('none')\n    else:\n        print('some')\n    val2 = noisy(a) if a else b\n    if val2:\n        print('v2')\nf({a}, {b})\n"
+                       + f"def g():\n    val = noisy({a})\n    if val:\n        return lambda: val\n    return lambda: 'no'\ntry:\n    print(g()())\nexcept Exception as e:\n    print('EXC', type(e).__name__)\n")
+            continue
         out.append(PRELUDE + f"def f():\n    val = {v}\n    if val:\n        {body.replace(chr(10), chr(10) + '    ')}\n    else:\n        print('no', val)\n    {tail}\nf()\nval = {v}\nif val is not None:\n    print('module', val)\n")
     return out
 
@@ -183,6 +203,9 @@ def fam_misc(rng):
     for _ in range(10):
         mode = rng.choice(["'w'", "'a'"])
         out.append(f"import os, tempfile\nd = tempfile.mkdtemp()\np = os.path.join(d, 'f.txt')\nf = open(p, {mode})\nf.write('hello')\nf.flush()\nprint(open(p).read())\ng = open(p)\ndata = g.read()\nprint(len(data))\n")
+    for _ in range(8):
+        out.append("import os, tempfile\nd = tempfile.mkdtemp()\np = os.path.join(d, 'f.txt')\nopen(p, 'w').write('l1\\nl2\\nl3\\n')\nh = open(p)\nr = h\nprint(r.readline())\nprint(h.read())\n"
+                   + rng.choice(["", "q = open(p)\nz = q\ny = z\nprint(y.readline())\nprint(q.readline())\nprint(z.read())\n"]))
     for _ in range(10):
         out.append("import threading\nlock = threading.Lock()\nwith lock:\n    print('in', lock.locked())\nprint('out', lock.locked())\nwith threading.RLock():\n    print('r')\n")
     for _ in range(8):
